@@ -162,6 +162,80 @@ class Gen:
         self.a_ro[h] = bool(ro)
         return h
 
+    def create(self):
+        """a creation routine with explicit arguments (C17's per-call clause, placed in histories
+        because the dtype gate and the constant flag depend on the tracking switch)"""
+        r = self.r
+        fn = self.choice(["zeros", "ones", "empty", "zeros_like", "ones_like", "empty_like", "full", "full_like", "arange", "linspace", "logspace", "geomspace", "eye", "identity"])
+        kw = {}
+        args = []
+        like = None
+        dts = ["f8", "f4", "f2", "i8", "i4", "b1"]
+        if self.coin(0.6):
+            kw["dtype"] = self.choice(dts)
+        if self.coin(0.04):
+            kw["dtype"] = "c16"  # refused while tracking is on
+        shp = list(self.rand_shape())
+        if fn in ("zeros", "ones", "empty"):
+            args = [{"shape": shp}] if (len(shp) != 1 or self.coin(0.5)) else [shp[0]]
+        elif fn.endswith("_like"):
+            hs = self.tensors()
+            if hs and self.coin(0.7):
+                like = {"t": self.choice(hs)}
+            elif self.a and self.coin(0.7):
+                like = {"a": self.choice(sorted(self.a))}
+            else:
+                like = {"n": enc_arr(self.rand_vals(tuple(shp), self.choice(["f8", "f4", "i8"])))}
+            if fn == "full_like":
+                args = [self.choice([2, -1.5, 0.25, 7])]
+            if self.coin(0.25):
+                kw["shape"] = shp if (len(shp) != 1 or self.coin(0.5)) else shp[0]
+        elif fn == "full":
+            args = [{"shape": shp}, self.choice([2, -1.5, 0.25, 7, True])]
+        elif fn == "arange":
+            n = r.randint(1, 3)
+            cand = [r.randint(-3, 6), r.randint(-3, 9), self.choice([1, 2, -1, 0.5, 3])]
+            args = [cand[1]] if n == 1 else cand[:n]
+            if self.coin(0.3):
+                args = [float(a) + self.choice([0.0, 0.5]) for a in args]
+            if len(args) == 3 and args[2] == 0:
+                args[2] = 1
+        elif fn in ("linspace", "logspace", "geomspace"):
+            a, b = round(r.uniform(0.5, 3), 2), round(r.uniform(0.5, 4), 2)
+            if self.coin(0.3):
+                a, b = r.randint(1, 3), r.randint(1, 5)
+            args = [a, b]
+            if self.coin(0.25):
+                # array-valued end points with an explicit axis
+                m = r.randint(1, 3)
+                args = [{"n": enc_arr(self.rand_vals((m,), "f8", positive=True) + 0.5)}, {"n": enc_arr(self.rand_vals((m,), "f8", positive=True) + 0.5)}]
+                if self.coin(0.5):
+                    kw["axis"] = self.choice([0, 1, -1])
+            if self.coin(0.8):
+                kw["num"] = r.randint(0, 6)
+            if self.coin(0.5):
+                kw["endpoint"] = self.coin(0.5)
+            if fn == "logspace" and self.coin(0.4):
+                kw["base"] = self.choice([2, 10, 2.5])
+            if kw.get("dtype") in ("b1",):
+                kw.pop("dtype")
+        elif fn == "eye":
+            args = [r.randint(0, 4)]
+            if self.coin(0.5):
+                kw["M"] = r.randint(0, 4)
+            if self.coin(0.5):
+                kw["k"] = r.randint(-2, 2)
+        else:
+            args = [r.randint(0, 4)]
+        c = self.wchoice([(None, 6), (True, 1), (False, 1)])
+        if c is not None:
+            kw["constant"] = c
+        ev = {"k": "create", "fn": fn, "out": self.new_h(), "pargs": args, "kw": kw}
+        if like is not None:
+            ev["like"] = like
+        self.emit(ev)
+        return None  # (the generator does not track the new tensor: it takes no further part)
+
     def rand_basic_index(self, shape, allow_newaxis=True, allow_int=True, want_view=True):
         ix = []
         used_ellipsis = False
